@@ -414,7 +414,7 @@ theorem inv_process {s : State Attr V} (hI : Inv P Fn d init s) (b : Bool) :
         rw [← hv, hc, hp1]; rfl
       simp only
       cases b
-      · exact hI1
+      · exact ⟨hI1.x_ok, hI1.cache_ok, hI1.pre_ok, hI1.fitted_ok, by intro v hv; cases hv⟩
       · exact inv_buildPredictor P Fn d init hI1
     · exact hI
   · exact hI
@@ -528,7 +528,7 @@ theorem doProcess_ok {s : State Attr V} {p : V} (hp : s.pre = some p) (h : allSe
     (build : Bool) :
     doProcess P Fn s build =
       if build then buildPredictor P Fn { s with fitted := some (Fn.post (view P.postReads s.cache) p) }
-      else (.ok, { s with fitted := some (Fn.post (view P.postReads s.cache) p) }) := by
+      else (.ok, { s with fitted := some (Fn.post (view P.postReads s.cache) p), predictor := none }) := by
   unfold doProcess
   rw [hp]
   simp only
@@ -540,7 +540,7 @@ theorem doFit_after_prepare {s s1 : State Attr V} {a : Option Tok} {b0 : Tok} (b
     (hb : b0.content = d) (hL : Legal P Fn d init) :
     doFit P Fn s a build =
       (.ok, { s1 with pre := some (refPre P Fn d init), fitted := some (refFit P Fn d init),
-                      predictor := if build then some (refPred P Fn d init) else s1.predictor }) := by
+                      predictor := if build then some (refPred P Fn d init) else none }) := by
   obtain ⟨h1, h2, h3⟩ := hL
   unfold doFit
   rw [hprep]
